@@ -16,16 +16,25 @@ import copy
 import json
 
 from harness.common import ctrl
+from harness.common.num import q, fbits
 
 PID = "C07"
 LEVEL = "proof"
+EXTRA_PROP_FILES = ["C07Heap"]  # heap-level Controller.run (initial state object), runSpec-level statements
 REQUIRED_THEOREMS = [
     "lattice_invariant", "no_overshoot", "progress", "run_terminates", "steps_eq_ceil",
     "whole_range_exact", "whole_range_exact_approx", "general_range", "state_is_iterate",
     "observation_independent", "observed_run_eq_unobserved", "solver_state_survives_interrupts",
     "initial_state_untouched_partial", "readonly_reaches_final", "whole_range_exact_readonly",
     "round_stable", "steps_stable_under_relative_error",
+    # Props/C07Heap.lean
+    "initial_state_untouched", "runHeap_refines", "runHeapAt_refines", "missing_copy_modifies_initial",
+    "runSpec_whole_range_exact", "runSpec_observation_independent", "runSpec_any_range", "empty_range",
+    "c07_statement_on_heap", "c07_any_range_on_heap",
+    "autonomous_state_any_arithmetic", "autonomous_bit_identical_of_same_steps", "float_autonomous_state",
+    "float_initial_state_untouched",
 ]
+MIN_LEGS = {"heap": 100}
 RULE = ("groups of runs sharing (dt, t_start, t_end, equation, solver, backend) and differing in the tracker "
         "set (the first set is empty: the tracker-free reference run; 0-4 trackers with constant / fixed / "
         "logarithmic / geometric / adversarial oracle schedules, intervals chosen as non-commensurate multiples of "
@@ -39,13 +48,18 @@ RULE = ("groups of runs sharing (dt, t_start, t_end, equation, solver, backend) 
         "tracker-free reference run of its group) at least one tracker call happens")
 ASSUMPTIONS = [
     "theorems are about exact field arithmetic; IEEE rounding enters only through round_stable / "
-    "steps_stable_under_relative_error and through the bit-exact Float replay of the same model definitions",
+    "steps_stable_under_relative_error, through the bit-exact Float replay of the same model definitions, and through "
+    "autonomous_state_any_arithmetic / float_autonomous_state (law-free arithmetic: state of an autonomous equation = "
+    "steps-fold iterate, bit-identical for equal step counts - holds for the Float instantiation itself)",
     "GeometricInterrupts answers (libm log/pow) are replayed as an oracle schedule in Float mode and whenever the "
     "exact lattice point differs from the float answer; the theorems hold for every oracle",
     "the simulated state is one number per cell (u'=1, u'=t, u'=a*u, u'=a*u+t; all cells alike) plus the stepper's "
     "own persistent state; the theorems are for an arbitrary state type and one-step map",
-    "the clause `initial state object left unmodified` is judged by the monitor only (the value-semantics model "
-    "cannot express a missing copy: theorem initial_state_untouched_partial)",
+    "the clause `initial state object left unmodified` is a theorem about the heap-level model of Controller.run "
+    "(Model/ControllerHeap.lean: copy() allocates, the stepper writes in place; theorems initial_state_untouched, "
+    "runHeap_refines); the heap model is executed by the handler c07.heap and compared with the real run "
+    "(content of the caller's object after the run, aliasing of the returned object, and the whole trace) in the leg "
+    "`heap`; other Python objects than field data (solver, trackers, info dictionaries) are not heap objects of the model",
     "post-step hooks are covered by one hook with persistent data (a step counter added to the state; the data is the "
     "second component of the model's solver state); trackers that read or write info[...] are neither modelled nor generated",
     "decimal parameters under JIT (fused multiply-add) have no bit-exact model reference: judged by the monitors, "
@@ -116,9 +130,67 @@ def run_monitors(ctx, group, reals):
             ctx.monitor_fail("independence", {"group": [c for c, _ in ok_runs]}, obs, exp, what, key={"what": what})
 
 
+def heap_request(ctx, hrng, case, real, batch, pending_heap):
+    """queue the heap-level model (`c07.heap` = Controller.runHeapSpec) for one executed run: the caller's initial
+    state is one object among 0-2 + 0-2 others; geometric schedules are replayed from the recorded answers"""
+    mode = case["numbers"]
+    if isinstance(real, str) or real.get("error"):
+        return
+    if mode == "F" and case.get("jit"):
+        ctx.hist("heap leg", "skipped: decimal numbers under JIT (no bit-exact reference)")
+        return
+    allg = [i for i, tr in enumerate(case["trackers"]) if tr["sched"]["kind"] in ("geometric", "realtime")]
+    if any(not real["sched_log"][i] for i in allg):
+        ctx.hist("heap leg", "skipped: uninstrumented geometric schedule")
+        return
+    req = ctrl.model_request(case, mode, ctrl.oracle_answers(real, allg))
+    enc = q if mode == "Q" else fbits
+    others = lambda n: [enc(hrng.randrange(-16, 17) / 4.0) for _ in range(n)]
+    req["heap"] = {"before": others(hrng.choice([0, 0, 1, 2])), "after": others(hrng.choice([0, 1, 2]))}
+    pending_heap.append((case, real, batch.add("c07.heap", req), req["heap"]))
+
+
+def resolve_heap(ctx, pending_heap, answers):
+    """heap-level model vs real run: everything `c07.run` is compared on, plus the caller's object after the run
+    (content, aliasing with the returned object) and the model's own frame (one allocation, no other write)"""
+    for case, real, i, heap in pending_heap:
+        ctx.count({"heap": heap, "case": case}, nontrivial=real["steps"] >= 1, leg="heap")
+        ctx.impl_traces += 1
+        st, val = answers[i]
+        if st != "ok":
+            ctx.disagree("heap", case, f"model error: {val}", None, "heap-level model")
+            continue
+        mode = case["numbers"]
+        d = ctrl.compare(case, real, val, mode, exact_state=ctrl.bit_exact_state(case, mode))
+        if d is not None:
+            ctx.disagree("heap", case, d.get("model"), d.get("impl"), d["what"] + " (heap-level model c07.heap)")
+            continue
+        enc = q if mode == "Q" else fbits
+        n, k = len(val["heap_before"]), val["caller"]
+        model_obs = {"initial": val["initial"], "aliased": val["aliased"], "allocs": val["allocs"]}
+        impl_obs = {"initial": enc(real["initial_after"]), "aliased": real["same_object"],
+                    "uniform": real["initial_uniform"], "intact": real.get("initial_intact", True)}
+        if (impl_obs["initial"] != val["initial"] or real["same_object"] != val["aliased"]
+                or not real["initial_uniform"] or not real.get("initial_intact", True)):
+            ctx.disagree("heap", case, model_obs, impl_obs,
+                         "the caller's initial state object after Controller.run (heap-level model c07.heap)")
+        # the model's own frame (what `initial_state_untouched` proves), evaluated: one allocation, the returned object
+        # is the new one, every object that existed before has its old content
+        if (k != len(heap["before"]) or n != len(heap["before"]) + 1 + len(heap["after"]) or val["allocs"] != 1
+                or val["obj"] != n or val["aliased"] or val["heap_after"][:n] != val["heap_before"]
+                or len(val["heap_after"]) != n + 1 or val["heap_after"][n] != val["state"]
+                or val["heap_before"][k] != enc(case["u0"])):
+            ctx.disagree("heap", case, {x: val[x] for x in ("caller", "obj", "allocs", "heap_before", "heap_after")},
+                         None, "frame of the heap-level model: objects other than the new working copy changed")
+        ctx.hist("heap leg", f"compared ({n - 1} bystander objects)")
+
+
 def run(ctx):
     from harness.common.lean import LeanBatch
     rng = ctx.rng
+    hrng = ctx.sub_rng("heap")
+    heap_budget = [ctx.budget(500, 5000)]
+    pending_heap = []
     plan = {"numpy": ctx.budget(500, 14000), "numba-S": ctx.budget(90, 2400), "numba-J": ctx.budget(14, 320)}
     groups = {m: [gen_group(rng, ctx.hist, m, 120 if m != "numba-J" else 40,
                             force=ctrl.FIXED_SOLVERS[i % 5] if (m == "numba-J" and i < ctx.budget(5, 40)) or
@@ -138,8 +210,12 @@ def run(ctx):
                     for ty in real.get("t_types", []):
                         ctx.hist("type of t seen by trackers", ty)
                 ctrl.check_run(ctx, case, real, batch, pending)
+                if heap_budget[0] > 0 and (mode != "numpy" or hrng.random() < 0.4):
+                    heap_budget[0] -= 1
+                    heap_request(ctx, hrng, case, real, batch, pending_heap)
             run_monitors(ctx, g, rs)
     answers = batch.run()
+    resolve_heap(ctx, pending_heap, answers)
     batch2 = LeanBatch(ctx.workdir)
     retry = ctrl.resolve(ctx, pending, answers, batch2)
     ctrl.resolve_retry(ctx, retry, batch2.run())
